@@ -1,9 +1,9 @@
 package props
 
 import (
-	"encoding/json"
 	"bytes"
 	"context"
+	"encoding/json"
 	"fmt"
 	"runtime"
 	"sync"
@@ -23,7 +23,7 @@ import (
 )
 
 type c18Act struct {
-	Kind string `json:"kind"` // send | sendbatched | cancelsend | answer | wait
+	Kind string `json:"kind"` // send | sendbatched | cancelsend | answer | answerpartial (MS = bytes of the frame that get out) | wait
 	I    int    `json:"i,omitempty"`
 	MS   int    `json:"ms,omitempty"`
 	// Gate: the Write of this request returns only after the client's reader has
@@ -62,6 +62,8 @@ type rcServer struct {
 	autoAnswer  map[uint32]bool
 	done        chan struct{}
 	bad         string
+	// wedged: part of a response frame is on the wire and the rest never comes: nothing else can be sent
+	wedged bool
 	// history: when each request arrived and when it was answered (zero = not yet)
 	recvAt   map[uint32]time.Time
 	answered map[uint32]time.Time
@@ -100,12 +102,38 @@ func (s *rcServer) answer(i int) bool {
 		s.mu.Unlock()
 		return false
 	}
+	if s.wedged {
+		s.mu.Unlock()
+		return false
+	}
 	i = ((i % len(s.outstanding)) + len(s.outstanding)) % len(s.outstanding)
 	req := s.outstanding[i]
 	s.outstanding = append(s.outstanding[:i], s.outstanding[i+1:]...)
 	s.answered[req.Header.GetCallId()] = time.Now()
 	s.mu.Unlock()
 	s.pair.Server.Write(rcOKResponse(req))
+	return true
+}
+
+// answerPartial writes the first bytes of the response to the i-th outstanding request (at least its length
+// prefix, never the whole frame) and goes silent for good: the request stays unanswered.
+func (s *rcServer) answerPartial(i, cut int) bool {
+	s.mu.Lock()
+	if len(s.outstanding) == 0 || s.wedged {
+		s.mu.Unlock()
+		return false
+	}
+	i = ((i % len(s.outstanding)) + len(s.outstanding)) % len(s.outstanding)
+	frame := rcOKResponse(s.outstanding[i])
+	s.wedged = true
+	s.mu.Unlock()
+	if cut < 4 {
+		cut = 4
+	}
+	if cut >= len(frame) {
+		cut = len(frame) - 1
+	}
+	s.pair.Server.Write(frame[:cut])
 	return true
 }
 
@@ -405,6 +433,10 @@ func c18RunInBubble(c c18Case) (out Outcome) {
 			out.Labels = append(out.Labels, "marshal_failure")
 		case "answer":
 			srv.answer(a.I)
+		case "answerpartial":
+			if srv.answerPartial(a.I, a.MS) {
+				out.Labels = append(out.Labels, "server_silent_in_mid_response")
+			}
 		case "wait":
 			time.Sleep(time.Duration(a.MS) * time.Millisecond)
 		}
@@ -501,6 +533,22 @@ func c18RunInBubble(c c18Case) (out Outcome) {
 				idleLong = true
 			}
 		}
+	}
+	srv.mu.Lock()
+	wedged := srv.wedged
+	srv.mu.Unlock()
+	if !dead && wedged {
+		// the server went silent in the middle of a response: nothing more can come over this connection.
+		// Whatever is outstanding - the half-answered request at least - has to be failed over by the
+		// read timeout of the last request sent
+		// (calls still queued for a batch go out up to a flush interval from now and arm the deadline anew)
+		time.Sleep(readTimeout + time.Duration(c.FlushMS+2)*time.Millisecond)
+		synctest.Wait()
+		if !env.pair.ClientClosed() {
+			return viol("silent-server-not-detected", "the server stopped in the middle of a response frame; %v (read timeout %v) after the last request the connection is still open and %d request(s) are waiting (read deadline now: %v from now; reader: %s)", readTimeout+time.Millisecond, readTimeout, srv.nOutstanding(), env.pair.ReadDeadline().Sub(time.Now()), firstGohbaseStack(gohbaseGoroutines(), "receive"))
+		}
+		silentWithOutstanding = true
+		dead = true
 	}
 	if !dead {
 		// the connection must still work
@@ -602,7 +650,7 @@ func c18Gen(t *rapid.T) c18Case {
 	}
 	n := rapid.IntRange(1, 25).Draw(t, "nacts")
 	for i := 0; i < n; i++ {
-		k := rapid.SampledFrom([]string{"send", "send", "sendbatched", "cancelsend", "sendbad", "answer", "answer", "answer", "answersend", "wait", "wait"}).Draw(t, "kind")
+		k := rapid.SampledFrom([]string{"send", "send", "sendbatched", "cancelsend", "sendbad", "answer", "answer", "answer", "answersend", "wait", "wait", "answerpartial"}).Draw(t, "kind")
 		a := c18Act{Kind: k, Dump: rapid.IntRange(0, 4).Draw(t, "dump") == 0}
 		switch k {
 		case "send":
@@ -615,6 +663,9 @@ func c18Gen(t *rapid.T) c18Case {
 			a.HoldClear = rapid.Bool().Draw(t, "holdclear")
 		case "answer":
 			a.I = rapid.IntRange(0, 5).Draw(t, "i")
+		case "answerpartial":
+			a.I = rapid.IntRange(0, 5).Draw(t, "i")
+			a.MS = rapid.SampledFrom([]int{4, 5, 8, 12, 1000}).Draw(t, "cut")
 		case "wait":
 			f := rapid.SampledFrom([]float64{0.001, 0.5, 0.99, 1.0, 1.01, 2, 10, 50}).Draw(t, "factor")
 			a.MS = int(float64(c.ReadTimeoutMS) * f)
@@ -633,7 +684,7 @@ func TestC18_ReadDeadline(t *testing.T) {
 		"rapid, virtual time: action scripts of 1..25 steps on one region client over an in-memory connection whose "+
 			"peer is the harness: send (unbatched; optionally with the writer held until the reader has consumed the "+
 			"response to that very request), send batched, send-and-cancel (after queueing, or while the request is being written), send a call that cannot be serialised, answer the i-th outstanding request (any "+
-			"order, also for cancelled calls and multi-requests), take a state dump of the connection (json.Marshal, as DebugState does; also at the moment a response has been consumed while its sender is still held), let time pass (0.001x .. 50x the read timeout); read "+
+			"order, also for cancelled calls and multi-requests), answer one only in part (the length prefix and some bytes, then silence for good), take a state dump of the connection (json.Marshal, as DebugState does; also at the moment a response has been consumed while its sender is still held), let time pass (0.001x .. 50x the read timeout); read "+
 			"timeout in {10ms..60s}. Invariant at every quiescence point: read deadline armed <=> the server holds "+
 			"unanswered requests, and armed deadline == last send + read timeout; a silent server fails every "+
 			"outstanding call with a ServerError at that instant and later calls are refused; an idle connection is "+
